@@ -178,6 +178,22 @@ def check(chk):
     chk.rule('C13.recheck', 'every way a request leaves a connection (answer, timeout) reaches the pool\'s return_connection, which closes a drained trashed connection')
     chk.borrow('C09', {'C09.orphan': 'C13.recheck'}, 'the pool is not told about the orphaned stream, so a trashed connection that has only orphans left is never closed')
 
+    # a connection marked for replacement stays marked: _replace reads the mark after it installed the successor to decide between close and trash
+    chk.rule('C13.sticky', 'orphaned_threshold_reached is only ever raised (class default False, set True by _on_timeout); nothing lowers it again')
+    from .c09 import attr_writes as _aw13
+    n_w = 0
+    for rel in ('cassandra/cluster.py', 'cassandra/connection.py', 'cassandra/pool.py'):
+        mm = chk.repo.mod(rel)
+        for st, tgt, f_ in _aw13(mm, 'orphaned_threshold_reached'):
+            n_w += 1
+            v = st.value if isinstance(st, (ast.Assign, ast.AugAssign, ast.AnnAssign)) else None
+            raised = isinstance(st, ast.Assign) and isinstance(v, ast.Constant) and v.value is True
+            chk.judge(raised, 'C13.sticky', st, '%s: %s' % (qual_of(f_) if f_ is not None else rel, src(st)),
+                      'the replacement mark is lowered again (%s): if a late response brings the orphan count back under the threshold after a replacement was requested, _replace finds the '
+                      'mark cleared and neither closes nor trashes the old connection - it stays open for ever, also after pool.shutdown()' % src(st))
+    if n_w < 1:
+        raise AnalysisError('C13.sticky: no writer of orphaned_threshold_reached found')
+
     # the heartbeat's OPTIONS request is a stream too: when its answer arrives the owning pool re-examines the connection
     chk.rule('C13.heartbeat', 'ConnectionHeartbeat.run: after giving the heartbeat\'s stream back (in_flight -= 1) a pooled connection is handed to owner.return_connection on every path')
     cm = chk.repo.mod('cassandra/connection.py')
